@@ -12,6 +12,7 @@ from fractions import Fraction as Fr
 import numpy as np
 
 from harness import common as C
+from harness.metricsqs import run_shards_retry
 
 ANCHORS = {"src/skmatter/metrics/_pairwise.py": [
     "periodic_pairwise_euclidean_distances", "_periodic_euclidean_distances",
@@ -344,7 +345,7 @@ def run(ctx):
         shards.append(C.SHARD_HEAD + "From Verif Require Import ListX Pairwise.\nOpen Scope Q_scope.\n"
                       "Definition verdicts : list bool := [\n %s].\n"
                       "Eval vm_compute in (failing verdicts).\n" % body)
-    outs = C.run_shards(ctx.prop, shards)
+    outs = run_shards_retry(ctx.prop, shards)
     mismatched, corr_broken = [], []
     for g, (rc, out) in zip(groups, outs):
         lists = C.parse_nat_lists(out)
